@@ -8,12 +8,28 @@ import DclabModel.DriveUtil
     grid <k> <ri> <n> <a…> <b…>     → `ok <mask bits>` | `err:value` | `err:index`
     ds <k> <ri> <all bits | -> <n> <xs…> <ys…>   (get_downsampled_scatter) → same answers
     cells <v> …                     → `cells <c> …` (norm → [0,299], needs a non-zero range)
+    lg <q1> <l1> <q2> <l2> …        REPLACE the table of observed logarithms `np.log(q) = l` → `ok`
+    scat <k> <ri> <retmask> <xlog> <ylog> <all bits | -> <n> <xcol…> <ycol…>
+                                    `getScatter` on the UNSCALED columns of the whole dataset
+                                    → `ok <mask bits | -> | <x…> | <y…>` | `err:value` | `err:index`
+    limit <limit> <qual bits | -> <manual bits | ->    (`limitSel`) → `ok <all bits>`
    values: `nan`, `+inf`, `-inf`, `p/q`, `p`
 -/
 open DclabModel.Down DclabModel.DriveUtil
 
 structure D where
   tab : List ((Nat × Nat) × List Nat) := []
+  logs : List (Rat × Rat) := []
+
+/-- the observed float logarithm (0 for values that were not announced) -/
+def D.lg (d : D) : Rat → Rat := fun q => (d.logs.lookup q).getD 0
+
+def pairUp : List Rat → Option (List (Rat × Rat))
+  | [] => some []
+  | q :: l :: r => (pairUp r).map (fun t => (q, l) :: t)
+  | _ => none
+
+def bitsOrEmpty (s : String) : List Bool := if s == "-" then [] else parseBools s
 
 def D.choice (d : D) : List Nat → Nat → List Nat := fun pool k =>
   match d.tab.lookup (pool.length, k) with
@@ -64,6 +80,31 @@ def handle (d : D) (line : String) : D × String :=
       if ab.length ≠ 2 * n then (d, "bad-op")
       else (d, showRes (dsScatter d.choice (if all == "-" then [] else parseBools all) (ab.take n) (ab.drop n) k (ri == "1")))
     | _, _, _ => (d, "bad-op")
+  | "lg" :: vs =>
+    match (vs.mapM parseRat?).bind pairUp with
+    | some t => ({ d with logs := t }, "ok")
+    | none => (d, "bad-op")
+  | "scat" :: k :: ri :: rm :: xl :: yl :: all :: n :: vs =>
+    match k.toNat?, n.toNat?, vs.mapM parseVal? with
+    | some k, some n, some ab =>
+      if ab.length ≠ 2 * n then (d, "bad-op")
+      else
+        match getScatter d.choice d.lg (bitsOrEmpty all) (ab.take n) (ab.drop n)
+                (xl == "1") (yl == "1") k (ri == "1") (rm == "1") with
+        | .ok (ox, oy, om) =>
+          (d, "ok " ++ (match om with
+                        | some m => if m.isEmpty then "-" else showBools m
+                        | none => "-")
+              ++ " | " ++ joinWith " " (ox.map showVal) ++ " | " ++ joinWith " " (oy.map showVal))
+        | .error .value => (d, "err:value")
+        | .error .index => (d, "err:index")
+    | _, _, _ => (d, "bad-op")
+  | ["limit", k, qual, manual] =>
+    match k.toNat? with
+    | some k =>
+      let r := limitSel d.choice k (bitsOrEmpty qual) (bitsOrEmpty manual)
+      (d, "ok " ++ (if r.isEmpty then "-" else showBools r))
+    | none => (d, "bad-op")
   | "cells" :: vs =>
     match vs.mapM parseVal? with
     | some a => (d, "cells " ++ showNats (cells1 (a.map Val.rat)))
